@@ -2,30 +2,42 @@
 (* Seeded generator of packet schedules: the behaviours of Wire.tla under a weighted
    random choice of the next event (uniform choice would spend all its steps on
    perturbations).  Run with `tlc -simulate num=N -depth D -seed S`; every finished
-   behaviour is printed once as a JSON line by the invariant PrintSchedule. *)
+   behaviour that meets its regime (MinBulk, WantCutAfterBulk ...) is printed once as a JSON
+   line by the invariant GenPrint. *)
 EXTENDS Wire
 
-CONSTANTS MinBulk, WantCutAfterBulk
+CONSTANTS MinBulk,             \* bulk blocks a behaviour needs to count
+          WantCutAfterBulk,    \* TRUE: steer towards [block, one packet, CutFile] and require a later file
+          SingleFileBatches    \* TRUE: every capture file is imported on its own (each cut is an import boundary)
 
 Progress == {"Open", "Hs", "NewMsg", "Segment", "Close", "Fin", "Emit"}
 Perturb  == {"Dup", "Swap", "CutFile", "Interleave", "PureAck"}
 
 AfterBulk == Len(wire) >= 2 /\ wire[Len(wire) - 1].k = "bulk"     \* exactly one packet after the block
 
+LastBulk == CHOOSE i \in DOMAIN wire : wire[i].k = "bulk" /\ \A j \in DOMAIN wire : wire[j].k = "bulk" => j <= i
+NeedBulk == cnt.bulk < MinBulk
+\* a bulk block has passed and the schedule is still in the block's capture file
+NeedCut  == WantCutAfterBulk /\ cnt.bulk >= 1 /\ curFile = wire[LastBulk].file /\ Last(wire).k # "bulk"
+
 GenNext ==
     \E dice \in {RandomElement({x \in 1 .. 100 : clock >= 0})} :     \* (mentions a variable: not constant-folded)
     \E en \in {{e \in AllEvents : ENABLED Step(e)}} :                \* bound once (LET would re-evaluate per use)
     \E pool \in {
         LET prog  == {e \in en : e.a \in Progress}
-            pert  == {e \in en : e.a \in Perturb}
-            bulk  == {e \in en : e.a = "Bulk" /\ wire # <<>>}
             cut   == {e \in en : e.a = "CutFile"}
+            \* keep one cut for after the block
+            pert  == {e \in en : e.a \in Perturb /\ ~(e.a = "CutFile" /\ WantCutAfterBulk /\ NeedBulk /\ cnt.cut >= MaxCuts - 1)}
+            bulk  == {e \in en : e.a = "Bulk" /\ Len(wire) >= 6 /\ Last(wire).k # "bulk"}
             emitd == {e \in prog : e.a = "Emit" /\ Head(flight[e.c]).k = "data"}
-            hand  == {e \in en : e.a \in {"Handover", "Batch"}}
+            hand0 == {e \in en : e.a \in {"Handover", "Batch"}}
+            hand1 == {e \in hand0 : e.a = "Batch" /\ Len(e.files) = 1}
+            hand  == IF SingleFileBatches /\ hand1 # {} THEN hand1 ELSE hand0
         IN  IF hand # {} THEN hand
             ELSE IF WantCutAfterBulk /\ AfterBulk /\ cut # {} /\ dice <= 60 THEN cut
             ELSE IF Len(wire) >= 1 /\ Last(wire).k = "bulk" /\ emitd # {} /\ dice <= 80 THEN emitd
-            ELSE IF bulk # {} /\ (dice <= 4 \/ (cnt.bulk < MinBulk /\ Len(wire) >= 12 /\ dice <= 30)) THEN bulk
+            ELSE IF bulk # {} /\ (dice <= 3 \/ (NeedBulk /\ dice <= 10)) THEN bulk
+            ELSE IF NeedCut /\ cut # {} /\ dice <= 40 THEN cut
             ELSE IF pert # {} /\ dice > 70 THEN pert
             ELSE IF prog # {} THEN prog
             ELSE pert} :
@@ -34,6 +46,9 @@ GenNext ==
 
 GenSpec == Init /\ [][GenNext]_vars
 
-GenDone == Done /\ cnt.bulk >= MinBulk
+\* in the snapshot regimes the schedule goes on in a later capture file than the (last) bulk block:
+\* only then can a later import resume from the snapshot
+FileAfterBulk == \A i \in DOMAIN wire : wire[i].k = "bulk" => \E j \in DOMAIN wire : j > i /\ wire[j].file > wire[i].file
+GenDone == Done /\ cnt.bulk >= MinBulk /\ (WantCutAfterBulk => FileAfterBulk)
 GenPrint == GenDone => PrintT("@@J" \o ToJson(Schedule))
 =============================================================================
